@@ -141,6 +141,12 @@ func c18Populate(dir string, sc c18Scenario, v c18Vec, prog string) error {
 	if err := os.WriteFile(filepath.Join(dir, c18SrcFile), []byte(prog), 0o644); err != nil {
 		return err
 	}
+	// one more name the patterns select: a symbolic link to a1.txt (a path that names a file is searched like a file)
+	if _, err := os.Stat(filepath.Join(dir, "a1.txt")); err == nil {
+		if err := os.Symlink("a1.txt", filepath.Join(dir, "a1link.txt")); err != nil {
+			return err
+		}
+	}
 	if v["pre"] == "1" {
 		for _, n := range []string{c18JsonFile, c18FJsonFile} {
 			if err := os.WriteFile(filepath.Join(dir, n), []byte(c18Garbage), 0o644); err != nil {
@@ -277,7 +283,12 @@ func c18RunLib(base string, sc c18Scenario, v c18Vec, prog string, realDir strin
 				perr = "compile: " + err.Error()
 				return
 			}
-			list := files.ParsePath(c18Patterns[v["files"]]).GetFileList(dir)
+			// the files the pattern describes, computed WITHOUT the library's path code (filepath.Glob on these simple
+			// patterns; both orders are by name): a file list the CLI gets wrong is then a difference, not a shared one
+			list, _ := filepath.Glob(filepath.Join(dir, c18Patterns[v["files"]]))
+			if lib2 := files.ParsePath(c18Patterns[v["files"]]).GetFileList(dir); strings.Join(lib2, "|") != strings.Join(list, "|") {
+				lib.note += "file list of the library differs from the glob: " + strings.Join(lib2, "|") + " vs " + strings.Join(list, "|") + "; "
+			}
 			if len(list) == 0 {
 				perr = "no files"
 				return
